@@ -477,8 +477,8 @@ def written_names(st):
     targets = st.targets
   for t in targets:
     for n in ast.walk(t):
-      if isinstance(n, ast.Name):
-        out.add(n.id)
+      if isinstance(n, ast.Name) and isinstance(n.ctx, (ast.Store, ast.Del)):
+        out.add(n.id)     # only names that are (re)bound; names inside subscripts/attributes are reads
   return out
 
 
